@@ -175,6 +175,16 @@ def main():
             DD = ag.get_TransitionDipoleMoment()
             fp0 = (numpy.array(HH._data).copy(), numpy.array(DD._data).copy(),
                    HH.get_current_basis())
+            if s % 2 == 1:
+                # the dipole strengths of the transitions are looked at
+                # before the spectrum is calculated (e.g. for a sum rule)
+                for k in range(1, N + 1):
+                    ds_k = DD.dipole_strength(transition=(0, k))
+                    wk = float(numpy.dot(dips[k - 1], dips[k - 1]))
+                    if abs(ds_k - wk) > 1e-10 * max(1.0, wk):
+                        ck.violation("dipole-strength", "site-basis",
+                                     dict(rp, k=k, got=float(ds_k), want=wk),
+                                     rp)
             ax, d0, _ = spectrum(ag, ta)
             fp1 = (numpy.array(HH._data), numpy.array(DD._data),
                    HH.get_current_basis())
